@@ -531,7 +531,9 @@ def mark_stale_history(d):
     """a request that returns an object built BEFORE a decoder_add_word(update=TRUE): fsg_search_reinit has emptied the
     history table since, so the dumped table is not what the lattice was built from (no build correspondence there)"""
     tr = d["trace"]
-    for i in d["Zreq"][:1]:
+    # the dump's OWN request (the last one recorded: `lat` ops of a preceding `calls` line are attributed to this dump too and come
+    # first, possibly before the add_word)
+    for i in d["Zreq"][-1:]:
         obj = tr[i][2]
         if obj < 0:
             return
